@@ -287,13 +287,26 @@ def run(ctx: Ctx, rep: Report, tier: str) -> None:  # noqa: C901
     pg = ctx.func("Port.line.getter")
     pi = ctx.func("Port._line__items_to_ints")
 
-    def portname_calls(fn: Func) -> List[ast.Call]:
+    def portname_calls(fn: Func, _seen=None) -> List[ast.Call]:
+        """PortName(...) constructions in fn or in the methods it calls on self (a shared helper counts)."""
+        _seen = _seen if _seen is not None else set()
+        if id(fn) in _seen:
+            return []
+        _seen.add(id(fn))
         out = []
         for n in own_nodes(fn.node):
             if isinstance(n, ast.Call) and isinstance(n.func, ast.Name):
                 r = ctx.prog.resolve_name(fn.module, n.func.id)
                 if r is ctx.cls("PortName"):
                     out.append(n)
+            if isinstance(n, ast.Call) and isinstance(n.func, ast.Attribute) and src(n.func.value) == "self" and fn.cls is not None:
+                m = fn.cls.lookup_method(n.func.attr)
+                if m is not None:
+                    out.extend(portname_calls(m, _seen))
+            if isinstance(n, ast.Attribute) and src(n.value) == "self" and fn.cls is not None and isinstance(n.ctx, ast.Load):
+                g2 = fn.cls.lookup_getter(n.attr)
+                if g2 is not None:
+                    out.extend(portname_calls(g2, _seen))
         return out
 
     def kw(call: ast.Call) -> Dict[str, str]:
@@ -323,11 +336,18 @@ def run(ctx: Ctx, rep: Report, tier: str) -> None:  # noqa: C901
                 )
             else:
                 rep.ok(f"{fn.qualname}: {snippet(c)}", "protocol/platform/version of the Port itself", where=where(fn, c))
-        used = {n.func.attr for n in own_nodes(fn.node) if isinstance(n, ast.Call) and isinstance(n.func, ast.Attribute) and n.func.attr in ("ports", "names") and ctx.types.expr_type(n.func.value, fn)[:1] == ("cls",)}
+        used = {n.func.attr for n in own_nodes(fn.node) if isinstance(n, ast.Call) and isinstance(n.func, ast.Attribute) and n.func.attr in ("ports", "names") and (ctx.types.expr_type(n.func.value, fn)[:1] == ("cls",) or "port_name" in src(n.func.value).lower())}
         if meth not in used:
             rep.violation(fn.qualname, f"PortName.{meth}()", f"{fn.qualname} no longer reads PortName.{meth}()", where(fn))
         else:
             rep.ok(f"{fn.qualname} reads PortName.{meth}()", "reader/writer use the paired views")
+
+    # a cached name table (or PortName object) must not outlive a change of protocol/platform/version
+    from .c05 import memo_rules
+
+    memo_rules(ctx, rep, rid="R09.3m", only_class="Port")
+    memo_rules(ctx, rep, rid="R09.3m", only_class="PortName")
+    memo_rules(ctx, rep, rid="R09.3m", only_class="Protocol")
 
     # ---------------------------------------------------------------- R09.5 splitter vocabulary
     rep.rule("R09.5")
